@@ -328,7 +328,8 @@ def render_rich(case):
 def step_lines(steps, ind):
     out = []
     for i, st in enumerate(steps):
-        out.append("%s%s it %s %d" % (ind, "Given" if i == 0 else "And", st["kind"], st["id"]))
+        kind = st["kind"] if st["kind"] != "greets" else "greets " + ["ALICE", "Bob", "carol", "DaVe"][st["id"] % 4]
+        out.append("%s%s it %s %d" % (ind, "Given" if i == 0 else "And", kind, st["id"]))
         if st.get("doc") is not None:
             out.append(ind + '  """')
             out += [ind + "  " + l for l in st["doc"]]
@@ -355,15 +356,55 @@ def impl_rich(case):
             assert False, "no"
         if kind == "error":
             raise RuntimeError("boom")
+    # a typed argument whose declared converter rejects the matched text (even numbers): the step ends in an error
+    # without its function being called (type-conversion error)
+    import parse
+    from behave import matchers
+    from behave.formatter.plain import PlainFormatter
+    from behave.formatter.pretty import PrettyFormatter
+    from behave.formatter.progress import StepProgressFormatter
+
+    @parse.with_pattern(r"\d+")
+    def odd(text):
+        if int(text) % 2 == 0:
+            raise ValueError("not odd: %s" % text)
+        return int(text)
+    factory = matchers.get_step_matcher_factory()
+    factory.reset()
+    factory.register_type(Odd=odd)
+    @parse.with_pattern(r"[A-Za-z]+")
+    def lower(text):
+        return text.lower()             # a converter whose value is a string that differs from the matched text
+    factory.register_type(Lower=lower)
+    called = []
+    registry.add_step_definition("step", "it greets {who:Lower} {n:d}", lambda context, who, n: None)
+    registry.add_step_definition("step", "it converts {n:Odd}", lambda context, n: called.append(n))
     registry.add_step_definition("step", "it {kind} {n:d}", impl)
     feature = parse_feature(render_rich(case), filename="r.feature")
     config = Configuration(["--no-color"], load_config=False)
     config.reporters = []
     runner = ModelRunner(config, [feature], step_registry=registry)
     stream = io.StringIO()
-    runner.formatters = [JSONFormatter(StreamOpener(stream=stream), config)]
+    from behave.formatter.base import Formatter
+    model_args = []
+
+    class RecArgs(Formatter):
+        def match(self, match):
+            if match.location:
+                model_args.append([[a.name, a.value if isinstance(a.value, (str, int, float, bool)) else None, a.original]
+                                   for a in match.arguments])
+    runner.formatters = [JSONFormatter(StreamOpener(stream=stream), config), RecArgs(StreamOpener(stream=io.StringIO()), config)]
+    for cls in (PlainFormatter, StepProgressFormatter, PrettyFormatter)[:case.get("others", 0)]:
+        runner.formatters.append(cls(StreamOpener(stream=io.StringIO()), config))
+    crashed = None
     with contextlib.redirect_stdout(io.StringIO()):
-        runner.run()
+        try:
+            runner.run()
+        except Exception as e:      # noqa -- a formatter raised: no report at all
+            import traceback
+            crashed = "%s: %s (%s)" % (type(e).__name__, e, traceback.extract_tb(e.__traceback__)[-1].filename.split("/")[-1])
+        finally:
+            factory.reset()
 
     def describe(sc):
         return {"name": sc.name, "status": sc.status.name,
@@ -371,7 +412,7 @@ def impl_rich(case):
                            "table": [list(st.table.headings), [list(r.cells) for r in st.table.rows]] if st.table is not None else None}
                           for st in sc.steps]}
     model = [describe(sc) for sc in feature.walk_scenarios()]
-    obs = {"model": model, "text": stream.getvalue()}
+    obs = {"model": model, "text": stream.getvalue(), "crashed": crashed, "called": called, "model_args": model_args}
     try:
         data = json.loads(stream.getvalue())
         back = JsonParser().parse_features(data)
@@ -383,10 +424,28 @@ def impl_rich(case):
 
 def oracle_rich(case, obs):
     out = []
+    if obs.get("crashed"):
+        return [("the run crashed inside a formatter, no report was written: %s" % obs["crashed"], "run-crashed-in-formatter")]
+    for m in obs["model"]:
+        for st in m["steps"]:
+            w = st["name"].split()
+            if w[1] == "converts" and int(w[2]) % 2 == 0 and st["status"] not in ("error", "skipped", "untested"):
+                out.append(("step %r: the declared converter rejects the text but the step is %s" % (st["name"], st["status"]), "conversion-error-status"))
+    if any(n % 2 == 0 for n in obs.get("called", [])):
+        out.append(("a step function was called with an argument its converter rejects: %s" % obs["called"], "conversion-error-called"))
     try:
         data = json.loads(obs["text"])
     except ValueError as e:
         return [("JSON report is not valid JSON: %s" % e, "json-invalid")]
+    # the arguments of every matched step: value, name and the matched text as the model's match has them
+    jargs = [[[a.get("name"), a["value"], a.get("original", a["value"])] for a in st["match"]["arguments"]]
+             for d in data for el in d.get("elements", []) if el["type"] != "background" for st in el["steps"] if "match" in st]
+    margs = [[[n, v if v is not None else o, o] for n, v, o in args] for args in obs.get("model_args", [])]
+    if jargs != margs:
+        k = [i for i, (a, b) in enumerate(zip(jargs, margs)) if a != b]
+        where = k[0] if k else min(len(jargs), len(margs))
+        out.append(("JSON match arguments [name, value, matched text] of matched step #%d are %r, the model's match has %r" % (
+            where, jargs[where] if where < len(jargs) else None, margs[where] if where < len(margs) else None), "json-match-arguments"))
     els = [el for d in data for el in d.get("elements", []) if el["type"] != "background"]
     if [el["name"] for el in els] != [m["name"] for m in obs["model"]]:
         out.append(("JSON scenarios %s, model %s" % ([el["name"] for el in els], [m["name"] for m in obs["model"]]), "json-structure"))
@@ -426,7 +485,7 @@ def gen_rich(rnd):
     sid = iter(range(1, 1000))
 
     def step():
-        st = {"kind": rnd.choice(["pass", "pass", "pass", "fail", "error"]), "id": next(sid)}
+        st = {"kind": rnd.choice(["pass", "pass", "pass", "fail", "error", "converts", "converts", "greets", "greets"]), "id": next(sid)}
         r = rnd.random()
         if r < 0.3 or r > 0.9:
             st["doc"] = [rnd.choice(["hello", "two words", "  indented", "x <c> y", "Ünï"]) for _ in range(rnd.randint(1, 3))]
@@ -441,7 +500,7 @@ def gen_rich(rnd):
         if rnd.random() < 0.3:
             sc["outline"] = [rnd.choice(["v1", "v2", "7"]) for _ in range(rnd.randint(1, 2))]
         scens.append(sc)
-    case = {"scenarios": scens}
+    case = {"scenarios": scens, "others": rnd.choice([0, 0, 1, 2, 3])}
     if rnd.random() < 0.3:
         case["bg"] = [step()]
     return case
